@@ -3,6 +3,7 @@
 From Coq Require Import List Bool Arith ZArith String Lia.
 From YV Require Import Show ReplLang Reuse ReuseSpec ReuseProofs.
 Import ListNotations.
+Set Default Timeout 120.
 
 (* the Spec sees a fiber of a finished run as finished *)
 Definition unmark (v : option gval) : option gval :=
@@ -78,8 +79,12 @@ Proof. intros f g; start; destruct f; nf; fin. Qed.
 Lemma refine_call : forall f, step_goal K S0 C0 (SnCall f).
 Proof.
   intros f; start; destruct f.
-  - destruct a2 as [[?|g|?|?|[]|?]|]; try (nf; fin). destruct g; [dv a0 | dv a1]; nf; fin.
-  - destruct a3 as [[?|g|?|?|[]|?]|]; try (nf; fin). destruct g; [dv a0 | dv a1]; nf; fin.
+  - destruct a2 as [[?|g|?|?|[]|?]|].
+    2: { destruct g; [dv a0 | dv a1]; nf; fin. }
+    all: nf; fin.
+  - destruct a3 as [[?|g|?|?|[]|?]|].
+    2: { destruct g; [dv a0 | dv a1]; nf; fin. }
+    all: nf; fin.
 Qed.
 
 Lemma refine_class : forall c z, step_goal K S0 C0 (SnClass c z).
@@ -91,9 +96,14 @@ Proof. intros c; start; destruct c; [dv a4 | dv a5]; nf; fin. Qed.
 Lemma refine_syntax : forall pre, step_goal K S0 C0 (SnSyntax pre).
 Proof. intros pre; start; destruct pre; nf; fin. Qed.
 
-Lemma refine_misc : step_goal K S0 C0 SnTryFin /\ step_goal K S0 C0 SnTryCatch /\ step_goal K S0 C0 SnFiberOk /\
-                    step_goal K S0 C0 SnCaptureOk.
-Proof. repeat split; start; nf; try fin. all: fin. Qed.
+Lemma refine_tryfin : step_goal K S0 C0 SnTryFin.
+Proof. start; nf; fin. Qed.
+Lemma refine_trycatch : step_goal K S0 C0 SnTryCatch.
+Proof. start; nf; fin. Qed.
+Lemma refine_fiberok : step_goal K S0 C0 SnFiberOk.
+Proof. start; nf; fin. Qed.
+Lemma refine_captureok : step_goal K S0 C0 SnCaptureOk.
+Proof. start; nf; fin. Qed.
 
 Lemma refine_range : forall k, step_goal K S0 C0 (SnRange k).
 Proof.
@@ -107,4 +117,31 @@ Proof. start; dv a6; nf; fin. Qed.
 
 Lemma refine_usemod : forall m, step_goal K S0 C0 (SnUseMod m).
 Proof. intros m; start; destruct m; [dv a8 | dv a9 | dv a10 | dv a11 | dv a12]; nf; fin. Qed.
+
+(* uncaught errors: the definitions completed before the failure persist on both sides, nothing else *)
+Lemma refine_throw : forall w d, w <> WFiberWait -> step_goal K S0 C0 (SnThrow w d).
+Proof.
+  intros w d Hn; start.
+  destruct d as [[[] z]|]; destruct w as [|[]| | | | | | | | | | | ]; try (exfalso; apply Hn; reflexivity); nf; fin.
+Qed.
+
+(* the waiting fiber: M leaves fw "called", the Spec sees a finished fiber; from here on the flag k_waiting is set *)
+Lemma refine_fiberwait : forall d, step_goal K S0 C0 (SnThrow WFiberWait d).
+Proof.
+  intros d; start. destruct d as [[[] z]|]; nf;
+    (split; [constructor; [ f_equal; try reflexivity;
+                              match goal with |- context [match ?a with _ => _ end] => is_var a; destruct a as [[| | | |[]|]|] end;
+                              reflexivity
+                          | intros Hx; discriminate Hx | exact Hi | exact Hp | exact Hu | exact Hf | exact Hg]
+            | split; [exact I | intros _; reflexivity]]).
+Qed.
+
+Lemma refine_usefiber : step_goal K S0 C0 SnUseFiber.
+Proof.
+  start. destruct a7 as [[?|?|?|?|[]|?]|]; nf; try fin.
+  (* fw was left called: only inside the named class *)
+  split; [constructor; [reflexivity | exact Hw | exact Hi | exact Hp | exact Hu | exact Hf | exact Hg]|].
+  split; [exact I|].
+  destruct kw; [intros Hx; discriminate Hx|]. exfalso; apply Hw; reflexivity.
+Qed.
 End Plain.
